@@ -107,7 +107,7 @@ func sigTerm(v *view, sh bool, readerDom string) (term string, equivalent bool) 
 		}
 		return fmt.Sprintf("(SdOver %d %s %s %s)", si.k, shareBytes([]byte(si.dom)), shareBytes(si.ty), shareBytes(si.pl)), false
 	}
-	if v.keyIdx < len(pool.Ids) {
+	{
 		if ok, err := v.key.Verify(layout(readerDom, v.ty, v.pl), v.sig); err == nil && ok {
 			return fmt.Sprintf("(SdSelf %d %s)", v.keyIdx, shareBytes([]byte(readerDom))), true
 		}
